@@ -171,6 +171,9 @@ func (m *Machine) decide(c *Term) bool {
 	if !m.deadline.IsZero() && time.Now().After(m.deadline) {
 		panic(unsupported("unit time budget exceeded"))
 	}
+	if m.inPerAlt {
+		panic(perAltAbort{})
+	}
 	tFeas, fFeas := Unknown, Unknown
 	var tModel, fModel Model
 	tKnown, fKnown := false, false
